@@ -14,6 +14,7 @@ root solver returns.
 -/
 import FloVerif.Gen.Overlaps
 import FloVerif.Gen.LinearFallback
+import FloVerif.Props.C04
 import Mathlib.Tactic.Ring
 import Mathlib.Tactic.NormNum.OfScientific
 import Mathlib.Tactic.Linarith
@@ -379,6 +380,30 @@ theorem linear_fallback_sound (solve_roots : T4 K K K K → List K) (solve_basis
     exact ⟨hit, hhit, hc, Or.inl hw⟩
   · obtain ⟨hit, hhit, hc, hw⟩ := first _ h
     exact ⟨hit, hhit, hc, Or.inl hw⟩
+
+/-- **THE TWO POINTS OF A LINEAR-FALL-BACK ANSWER ARE CLOSE**: `linear_fallback_sound` with what C04 proves about the hits of
+    `curve_intersects_ray` (`C04.hit_sound`: the hit's parameter is in [0,1] and its position IS the point of the curved section's
+    cubic at that parameter).  For ANY root solvers, every reported `(linear_t, curved_t)` has `0 ≤ curved_t ≤ 1`, and the point of the
+    linear section's cubic at `linear_t` is within `max(accuracy, 0.01)` of the point of the curved section's cubic at `curved_t` - or
+    it is the short-section rescue, where the curved point is within 0.05 of the linear section's mid point. -/
+theorem linear_fallback_points_close (solve_roots : T4 K K K K → List K) (solve_basis : K → K → K → K → K → List K)
+    (a1 a2 a3 a4 b1 b2 b3 b4 : V2 K) (lin cur : SectionT K) (accuracy lt ct : K) (hacc : 0 ≤ accuracy)
+    (h : T2.mk lt ct ∈ intersections_with_linear_section solve_roots solve_basis a1 a2 a3 a4 b1 b2 b3 b4 lin cur accuracy) :
+    0 ≤ ct ∧ ct ≤ 1 ∧
+    (Within (max accuracy (CLOSE_DISTANCE : K))
+        (curve_point_at_pos (secCubic a1 a2 a3 a4 lin).t0 (secCubic a1 a2 a3 a4 lin).t1 (secCubic a1 a2 a3 a4 lin).t2
+          (secCubic a1 a2 a3 a4 lin).t3 lt)
+        (de_casteljau4 ct (secCubic b1 b2 b3 b4 cur).t0 (secCubic b1 b2 b3 b4 cur).t1 (secCubic b1 b2 b3 b4 cur).t2
+          (secCubic b1 b2 b3 b4 cur).t3) ∨
+     (lt = 0.5 ∧ is_near_to (de_casteljau4 ct (secCubic b1 b2 b3 b4 cur).t0 (secCubic b1 b2 b3 b4 cur).t1
+          (secCubic b1 b2 b3 b4 cur).t2 (secCubic b1 b2 b3 b4 cur).t3) (section_point_at_pos a1 a2 a3 a4 lin (0.5 : K)) (CLOSE_ENOUGH : K) = true)) := by
+  obtain ⟨hit, hhit, hct, hcase⟩ := linear_fallback_sound solve_roots solve_basis a1 a2 a3 a4 b1 b2 b3 b4 lin cur accuracy lt ct hacc h
+  obtain ⟨_, r, _, _, h0, h1, hpos, _⟩ := C04.hit_sound solve_roots _ _ _ _ _ hit hhit
+  rw [hct] at h0 h1 hpos
+  refine ⟨h0, h1, ?_⟩
+  rcases hcase with hw | ⟨hlt, hnear, _⟩
+  · left; rw [← hpos]; exact hw
+  · right; rw [← hpos]; exact ⟨hlt, hnear⟩
 
 /-! ### non-vacuity -/
 section example_
